@@ -666,6 +666,11 @@ func (ex *Exec) frameStore(st *State, t *ssa.Store, l Loc) {
 	if g, ok := t.Addr.(*ssa.Global); ok && g.Name() == "init$guard" {
 		return
 	}
+	// C14: outside the package initialisers a package-level variable is never written by a plain store
+	// (the only writer of one, Memoize, goes through sync/atomic)
+	if g, ok := t.Addr.(*ssa.Global); ok && ex.fn.Synthetic != "package initializer" && ex.fn.Name() != "init" && !strings.HasPrefix(ex.fn.Name(), "init#") {
+		st.check(fmt.Sprintf("race/global-store#%d:%s", ex.ordinal[t], g.Name()), "frame", tFalse, "plain (non-atomic) store to the package-level variable "+g.Name()+" outside an initialiser: shared by every concurrent parse", nil, t.Pos())
+	}
 	switch l.Kind {
 	case LObj:
 		si := st.u().structInfoOf(l.Type)
